@@ -59,7 +59,7 @@ CHECKS = {
     "C10": {
         "engine": "E1", "level": "exploration",
         "technique": "bounded-exhaustive enumeration of token streams x posting formats x block sizes x compression x inlining x codecs x write paths on the real code, against a plain-Python token model",
-        "text": "Every token stream up to length 2-3 over a 4-term alphabet (long and non-BMP terms, boosts, position gaps), every posting-list length around block multiples for block sizes 1,2,3,128, all six posting/vector formats, W3 (compound/loose, compression, inline limit), memory and plain-text codecs, through IndexWriter, merges and the raw codec API: postings, term statistics and vectors read back must equal the model. Complete within those bounds.",
+        "text": "Every token stream up to length 2-3 over a 4-term alphabet (long and non-BMP terms, boosts, position gaps), every posting-list length around block multiples for block sizes 1,2,3,128, all six posting/vector formats, W3 (compound/loose, compression, inline limit), memory and plain-text codecs, through IndexWriter, merges and the raw codec API: postings, term statistics and vectors read back must equal the model. Complete within those bounds. The same corpora are also kept in 2-3 segments and read through the multi-segment reader (MultiMatcher, combined term infos) and then through every segment's own reader; the in-memory codec is also written by several writers in turn; every term statistic is asked twice.",
         "note": "Trusted: the token model in mc/checks/c10.py; weights compared to float32 precision; min/max length accepted exact or through the documented byte approximation.",
     },
     "C11": {
@@ -77,13 +77,13 @@ CHECKS = {
     "C13": {
         "engine": "E1", "level": "exploration",
         "technique": "exhaustive enumeration of 8-bit numeric domains (all values, all start<=end pairs, all shift steps) and boundary-alphabet exhaustive enumeration for wider types, on the real code against Python comparison",
-        "text": "8-bit signed/unsigned: sortable encoding is a strictly monotone bijection; split_ranges tiles [start,end] exactly for every pair and step; tiered_ranges for every (start,end,excl,excl) incl. None; NumericRange on real indexes holding every value (and one with holes). 16/32/64-bit ints, float, Decimal, DATETIME: every ordered pair of 37-53 boundary values x 4 exclusivity combinations on an index holding the alphabet, round trips, sort order; out-of-domain values must be rejected in five contexts.",
+        "text": "8-bit signed/unsigned: sortable encoding is a strictly monotone bijection; split_ranges tiles [start,end] exactly for every pair and step; tiered_ranges for every (start,end,excl,excl) incl. None; NumericRange on real indexes holding every value (and one with holes). 16/32/64-bit ints, float, Decimal, DATETIME: every ordered pair of 37-53 boundary values x 4 exclusivity combinations on an index holding the alphabet, round trips, sort order; out-of-domain values must be rejected in five contexts. DATETIME: every value of the boundary alphabet typed as a period of every precision (year .. microsecond) through the query parser, as a term and as open/closed range bounds, incl. the periods touching both ends of the domain.",
         "note": "Trusted: Python's own comparison on the original values. Wider types are covered through boundary alphabets only.",
     },
     "C14": {
         "engine": "E1", "level": "exploration",
         "technique": "bounded-exhaustive enumeration of sort-key assignments x key types x segment layouts x deletions x limits/pages x filter/mask forms x facets x collapse settings on the real code, against a plain-Python model (sorted(), partitions, slices)",
-        "text": "Every assignment docs -> {missing,v1,v2,v3} for D=3..5 documents applied to every key type (text/numeric/date/boolean with and without column, stored-field, query/range/function facets, score), every segment composition incl. segments lacking the column, two-key sorts with mixed directions, every filter x mask set in every object form, all pages, overlapping facets, collapse limits and orders: order, groups, collapse survivors, filtered subsequence, page slices and len() must equal the model.",
+        "text": "Every assignment docs -> {missing,v1,v2,v3} for D=3..5 documents applied to every key type (text/numeric/date/boolean with and without column, stored-field, query/range/function facets, score), every segment composition incl. segments lacking the column, two-key sorts with mixed directions, every filter x mask set in every object form, all pages, overlapping facets, collapse limits and orders: order, groups, collapse survivors, filtered subsequence, page slices and len() must equal the model. After a filtered search the caller's filter/mask objects (set, BitSet, Results) must be unchanged and give the model answer when re-used alone and together on the same searcher.",
         "note": "Trusted: the model in mc/checks/c14.py; only the documented placement of missing values is demanded; ties in collapse_order accepted either way.",
     },
     "C15": {
@@ -101,13 +101,13 @@ CHECKS = {
     "C17": {
         "engine": "E1", "level": "exploration",
         "technique": "bounded-exhaustive enumeration of texts (all concatenations of <=3-4 chunks from a 13-chunk alphabet) x 64 analyzer/field configurations on the real code, checked by relations between whoosh's own index-time, query-time, phrase, offset and highlighting paths",
-        "text": "Every text of <=3 (thorough 4) chunks over an alphabet of letters, case, stop word, accented/multi-char-lowercase characters, alphanumerics, hyphen/apostrophe/URL forms, whitespace, punctuation and a 70-character word, for every shipped analyzer and filter chain on TEXT/KEYWORD/ID/NGRAM/NGRAMWORDS fields: the document is found by each index-time token, by the conjunction of its query-time tokens and by the parser's reading of the text, by every phrase of consecutive tokens; positions are non-decreasing, offsets are in range and re-analyse to the token; highlights stripped of markup are substrings and marked spans are matched terms for every fragmenter x formatter.",
+        "text": "Every text of <=3 (thorough 4) chunks over an alphabet of letters, case, stop word, accented/multi-char-lowercase characters, alphanumerics, hyphen/apostrophe/URL forms, whitespace, punctuation and a 70-character word, for every shipped analyzer and filter chain on TEXT/KEYWORD/ID/NGRAM/NGRAMWORDS fields: the document is found by each index-time token, by the conjunction of its query-time tokens and by the parser's reading of the text, by every phrase of consecutive tokens; positions are non-decreasing, offsets are in range and re-analyse to the token; highlights stripped of markup are substrings and marked spans are matched terms for every fragmenter x formatter. R6: the highlighter's re-tokenisation (index mode, stop words kept but marked stopped) must leave exactly the index-time tokens with the same offsets. Five field types are also registered as dynamic (glob) fields.",
         "note": "Trusted: only relations between whoosh's own paths plus Python string slicing (no second tokenizer). Single-segment RAM index per shard.",
     },
     "C18": {
         "engine": "E3", "level": "model_checking",
         "technique": "bounded-exhaustive enumeration of operation lists x storage x packing x writer front-end against a reference dump (sequential product), plus stateless schedule exploration of AsyncWriter/BufferedWriter threads under a cooperative scheduler with line-level points inside the front-ends",
-        "text": "Part A: every operation list of length <=2 (thorough 3) over {add, update, delete} x 2 keys x 2 texts through {RAM, file mmap, file no-mmap, copy_to_ram} x {compound, loose} x {plain, BufferedWriter limit 1-3, AsyncWriter, SerialMpWriter, MpWriter with real processes (procs 2; procs 3 multisegment)} must give the reference canonical dump. Part C: operation lists incl. sparse documents on a schema whose ID/TEXT/KEYWORD/NUMERIC fields all have sort columns plus a dynamic (glob) field, through BufferedWriter limit 1-4: after EVERY operation the writer's own searcher (stored fields, every column value, vectors, lengths, postings, sort orders) and after close() the reopened index must equal the plain-writer reference. Part D: the same lists and schema through plain/Buffered/Async/SerialMp/Mp (2 procs; 3 procs multisegment)/copy_to_ram. Part B: an AsyncWriter racing a plain writer that holds the lock (commit/cancel/optimize; the holder renumbers documents or adds the term the AsyncWriter deletes), and a BufferedWriter shared by two adder threads, an observer (searcher() must show exactly the documents whose add had returned / started) and its flush timer: every schedule with <=1 (thorough 2) preemptions; afterwards close() must leave exactly all documents on disk.",
+        "text": "Part A: every operation list of length <=2 (thorough 3) over {add, update, delete} x 2 keys x 2 texts through {RAM, file mmap, file no-mmap, copy_to_ram} x {compound, loose} x {plain, BufferedWriter limit 1-3, AsyncWriter, SerialMpWriter, MpWriter with real processes (procs 2; procs 3 multisegment)} must give the reference canonical dump. Part C: operation lists incl. sparse documents on a schema whose ID/TEXT/KEYWORD/NUMERIC fields all have sort columns plus a dynamic (glob) field, through BufferedWriter limit 1-4: after EVERY operation the writer's own searcher (stored fields, every column value, vectors, lengths, postings, sort orders) and after close() the reopened index must equal the plain-writer reference. Part D: the same lists and schema through plain/Buffered/Async/SerialMp/Mp (2 procs; 3 procs multisegment)/copy_to_ram. Part B: an AsyncWriter racing a plain writer that holds the lock (commit/cancel/optimize; the holder renumbers documents or adds the term the AsyncWriter deletes), and a BufferedWriter shared by two adder threads, an observer (searcher() must show exactly the documents whose add had returned / started) and its flush timer: every schedule with <=1 (thorough 2) preemptions; afterwards close() must leave exactly all documents on disk. Part E: a BufferedWriter kept open across flushes whose commits optimise / merge by default / do not merge, from start states with deleted documents on disk, every operation list of length <=4 (thorough 5) over {add, update, delete} x 2 keys: its own searcher after every operation and the index after close() equal the plain-writer reference.",
         "note": "Trusted: reference = plain writer on RAM with one transaction per operation; scheduler owns storage/lock/sleep and (inside BufferedWriter methods) line-level nondeterminism. Real MpWriter process timing is not controlled, only its outcome is compared.",
     },
     "C19": {
